@@ -273,7 +273,8 @@ Print Assumptions printed_source_plays_with_the_reference_meaning.
 (* Python's parser on the argument strings of the examples *)
 Definition sp_demo_pp : ParseBase.pyparse :=
   ParseBase.mkPyparse (fun _ => true)
-    (fun a => if String.eqb a "hp + 1" then Some (1, []) else if String.eqb a "2, bonus=hp" then Some (1, ["bonus"]) else None).
+    (fun a => if String.eqb a "hp + 1" then Some (1, []) else if String.eqb a "2, bonus=hp" then Some (1, ["bonus"]) else None)
+    (fun _ => 0).
 
 (* several passages; an inline conditional, glue, a ~ statement, a parameterised passage with calls (a choice and
    a jump), a conditional one-time choice, @render, @input, @hook, a blank line *)
